@@ -1,17 +1,25 @@
 #!/usr/bin/env python3
 """C14 -- concurrent renders are isolated and race-free (spec/RenderPool.tla, spec/TraceRenderPool.tla).
 
-MC   : TLC explores ALL interleavings of G goroutines x M renders over the shared runtime buffer pool
-       (sync.Pool as a bag; Get / Reset / Write / Flush / Put as separate steps), the development-mode
+MC   : TLC explores ALL interleavings of G goroutines x M renders over the shared pools of per-render objects
+       (sync.Pool as a bag of objects of a kind: the runtime buffer with Get / Reset / Write / Flush / Put as separate
+       steps, and a generic scratch kind -- bytes.Buffer of ToGoHTML/handler, a pooled class-name processor, ... --
+       with Get / Add / Read-into-the-document / Clear+Put), the development-mode
        literal cache (mutex, cached?, stat, reload, file rewritten meanwhile) and the once-handle id counter;
        invariants ExclusiveBuffer, Isolated, MutexProtectsCache, LiteralsAreAVersion, UniqueIds.  Negative
-       configs (Put before the flush, missing Reset, cache read outside the mutex, non-atomic id) must be rejected.
+       configs (Put before the flush, missing Reset, scratch object released twice, cache read outside the mutex,
+       non-atomic id) must be rejected.
 VAL  : the Go scheduler cannot be replayed step by step, so the binding is trace validation + stress: a harness
        built with `-race -tags verif` renders shared package-level components (generated interp/Page templates,
        once handles, nested components, flushes, failing expressions/components, slow and failing writers,
-       templ.ToGoHTML and the buffered templ.Handler for the bytes.Buffer pool) from N goroutines x M renders;
+       templ.ToGoHTML and the buffered templ.Handler for the bytes.Buffer pool, and a Gallery template whose variants
+       go through class expressions in every container form, css components, script templates / on* attributes,
+       style, URL and spread attributes, JSONScript, Raw) from N goroutines x M renders;
        a second process runs with TEMPL_DEV_MODE=true against literal text files (TEMPL_DEV_MODE_ROOT in scratch)
-       that a goroutine keeps rewriting.  Every render is compared byte for byte with the same render alone;
+       that a goroutine keeps rewriting (all goroutines leave the same 130 ms of every 500 ms idle, so the cache
+       reloads whatever its look-again policy is -- WHEN it reloads is C16's property, not this one's; a tree
+       on which not even that makes it reload cannot exercise concurrent reloads and is reported as exit 2).
+       Every render is compared byte for byte with the same render alone;
        the `verif` pool hooks (hooks/C10-pool.diff; global sequence number, Put logged before / Get after) give
        the trace that TLC validates against the pool protocol (ExclusiveBuffer, NoCarryOver, OneOwner);
        every race-detector report is a violation of the real code.
@@ -26,6 +34,7 @@ NEG = {  # seeded defect -> (DevMode, invariants that may reject it)
     "noreset": ("FALSE", {"Isolated"}),
     "cacheunlocked": ("TRUE", {"MutexProtectsCache"}),
     "idrace": ("FALSE", {"UniqueIds"}),
+    "doubleput": ("FALSE", {"ExclusiveBuffer", "Isolated"}),      # a pooled scratch object released twice for one Get
 }
 
 
@@ -93,7 +102,7 @@ def trace_selftest(ck, cfgtext):
     if got != want:
         raise vlib.InfraError("trace self-test: planted violations %s, trace spec reported %s" % (want, got))
     kinds = sorted({v["kind"] for v in want})
-    spec_kinds = sorted(set(re.findall(r'V\(n, "([A-Za-z.]+)"\)', open(os.path.join(vlib.SPEC, "TraceRenderPool.tla")).read())))
+    spec_kinds = sorted(set(re.findall(r'"((?:Harness|OneOwner|ExclusiveBuffer|NoCarryOver)\.[A-Za-z]+)"', open(os.path.join(vlib.SPEC, "TraceRenderPool.tla")).read())))
     if kinds != spec_kinds:
         raise vlib.InfraError("trace self-test does not cover every violation kind of the trace spec: %s vs %s" % (kinds, spec_kinds))
     ok = vlib.tlc("TraceRenderPool", "t.cfg", workers=1, timeout=300,
@@ -164,8 +173,9 @@ def main():
     # ---- MC --------------------------------------------------------------------------------------
     jobs = {
         "g2": dict(cfgtext=cfg("RenderPool_mc.cfg"), workers=2),
-        "g3": dict(cfgtext=cfg("RenderPool_mc.cfg", G="<- G3", NBuf="= 3", FailAt="<- Fail12",
+        "g3": dict(cfgtext=cfg("RenderPool_mc.cfg", G="<- G3", NBuf="= 3", FailAt="<- Fail12", Scratch="= FALSE",
                                DocLen="= %d" % (3 if thorough else 2)), workers=8),
+        "g3-scratch": dict(cfgtext=cfg("RenderPool_mc.cfg", G="<- G3", NBuf="= 3", FailAt="<- Fail12", DocLen="= 1"), workers=8),
         "dev-g2": dict(cfgtext=cfg("RenderPool_dev.cfg"), workers=4),
     }
     if thorough:
@@ -239,7 +249,12 @@ def main():
         if sm["hook_calls"] < sm["renders"] or sm["events"] < sm["renders"]:
             raise vlib.InfraError("pool hooks silent in run %d: %s" % (i, sm))
         if mode == "dev" and (sm["variants_seen"] < 2 or sm["rewrites"] < 5 or sm["renders"] < 50):
-            raise vlib.InfraError("development-mode run %d never saw the cache reload: %s" % (i, sm))
+            # not a C14 verdict: C14 says nothing about WHEN the cache reloads (that is C16); but without a reload the
+            # run did not exercise renders racing a reload, so it cannot count as evidence for C14 either
+            raise vlib.InfraError("development-mode run %d never saw the cache reload although the text files were rewritten %d times "
+                                  "and all renders paused 130 ms every 500 ms; renders racing a cache reload were not exercised, "
+                                  "so nothing was learnt about C14 in development mode (a cache that does not reload is a C16 "
+                                  "matter, not a C14 violation): %s" % (i, sm.get("rewrites", 0), sm))
         for k in total:
             total[k] += sm.get(k, 0)
         traces.append((i, ev, sm["events"]))
@@ -272,6 +287,7 @@ def main():
     nev = 0
     cnt = {}
     bykind = {}
+    shown = {}
     for i, evs, lines, nb, r, rep in vals:
         ck.add_tlc(r, "TraceRenderPool run %d" % i)
         nev += len(lines)
@@ -280,12 +296,15 @@ def main():
                    "events_validated": len(lines), "trace_head": evs[:10]}, limit=3)
         for k, v in rep["cnt"].items():
             cnt[k] = cnt.get(k, 0) + v
-        for v in rep["viol"]:
-            bykind[v["kind"]] = bykind.get(v["kind"], 0) + 1
+        for k, n in rep["vcnt"].items():                     # every violation is counted by kind ...
+            if n:
+                bykind[k] = bykind.get(k, 0) + n
+        for v in rep["viol"]:                                # ... the first 15 of each kind per run are listed with their line
             if v["kind"].startswith("Harness"):
                 raise vlib.InfraError("inconsistent trace: %s at line %d of run %d" % (v["kind"], v["line"], i))
-            if bykind[v["kind"]] > 3:
-                continue        # a few examples per kind; all are counted
+            shown[v["kind"]] = shown.get(v["kind"], 0) + 1
+            if shown[v["kind"]] > 3:
+                continue        # a few examples per kind
             e = evs[v["line"] - 1]
             same = [x for x in evs[max(0, v["line"] - 60): v["line"] + 5] if x["buf"] == e["buf"] or x["r"] == e["r"]]
             ck.violation(v["kind"], "pool hook trace of the real code leaves the pool protocol at event %s" % json.dumps(e),
@@ -322,6 +341,8 @@ def main():
     ck.assume("the Go race detector is trusted as monitor; a data race on a path no run reached is not seen")
     ck.assume("development mode: a render may pick each literal from either version of the text file that is being rewritten, "
               "alone or not; outputs are compared modulo that per-literal choice; the file is replaced atomically (rename)")
+    ck.assume("pooled objects without a verif hook (anything but the two buffer pools) are observed through the race detector and "
+              "the byte-for-byte comparison only, not through the pool-event trace")
     ck.assume("the deprecated templ.WriteWatchModeString (second copy of the cache in the root package) is not driven")
     ck.finish()
 
